@@ -712,8 +712,50 @@ def run(chk, facts, tier, only=None):
                    f"pp_defs args {[show(a) for x in pd for a in x['args']]}",
                    ok_detail=f"recs = infer_rec(&{b_env}, &def_list); pp_defs(&def_list)")
 
+        # after nominalisation only the nominalised environment may be consulted: the definition list, the recursion set and the printers
+        # must all see the generated names (a list taken from the original environment misses every definition nominalisation created)
+        seen_nom = False
+        stale = []
+        for x in walk(body):
+            if x is nom[0]:
+                seen_nom = True
+                continue
+            if seen_nom and x.get("k") == "path" and (x.get("res") or {}).get("kind") == "Local" and "TypeEnv" in (x.get("ty") or "") \
+                    and not any(y is x for y in walk(nom[0])) and x["res"]["path"] != b_env:
+                stale.append(x)
+        chk.expect(not stale, "nominalised-env:only-env-after-nominalize_all",
+                   f"emit_bindgen reads the environment `{stale[0]['res']['path'] if stale else ''}` after nominalize_all produced `{b_env}`: type names "
+                   f"created by nominalisation exist only in `{b_env}`, so definitions listed or looked up in the other environment are missing from "
+                   f"the output (a referenced type is never defined)", where=f"{e['span']['file']}:{stale[0].get('ln')}" if stale else None,
+                   ok_detail=f"every TypeEnv read after nominalize_all is `{b_env}`")
+
+    def func_modes():
+        # a function *type* is printed with all its annotations (query / composite_query / oneway): they are part of the Candid type
+        h = fn("pp_ty_func")
+        from shared import with_local_callees
+        ok, why = False, "no source of the annotations found"
+        FM = "candid::types::internal::FuncMode::"
+        KW = {"Oneway": "oneway", "Query": "query", "CompositeQuery": "composite_query"}
+        for g, via in with_local_callees(cp, h):
+            for x in walk(g["body"]):
+                if x.get("k") == "call" and (callee(x) or "").endswith("pretty::candid::pp_modes") and (expr_path(x["args"][0]) or "").endswith(".modes"):
+                    ok, why = True, "candid::pretty::candid::pp_modes(&f.modes)"
+            for m in nodes(g["body"], "match"):
+                vs = {v[len(FM):]: a for a in m["arms"] for v in pat_variants(a["pat"]) if (v or "").startswith(FM)}
+                if vs:
+                    wrong = {k: str_lits(a["body"]) for k, a in vs.items() if KW.get(k) not in str_lits(a["body"])}
+                    if set(vs) >= set(KW) and not wrong:
+                        ok, why = True, "match over FuncMode printing each annotation's own keyword"
+                    elif not ok:
+                        why = f"a match over FuncMode prints {wrong} (missing variants: {sorted(set(KW) - set(vs))})"
+        chk.expect(ok, "pp_ty_func:all-annotations",
+                   f"pp_ty_func must print every annotation of the function type (query, composite_query, oneway): {why}. A dropped `oneway` "
+                   f"turns `func (text) -> () oneway` into a different Candid type",
+                   where=f"{h['span']['file']}:{h['span']['lo']}", ok_detail=why)
+
     # ------------------------------------------------------------------------------------------------- R5
     def r5():
+        func_modes()
         h = fn("pp_ty")
         m = the_match(h, r"TypeInner$", 10)
         dead = set()
@@ -837,3 +879,6 @@ def run(chk, facts, tier, only=None):
         if only and only != rid:
             continue
         chk.run_rule(rid, desc, f_)
+    if only is None:
+        import c17
+        chk.include(c17, "C17.R3", "C18.R6", facts)     # chase_actor / infer_rec (shared with the JavaScript generator) decide order and Box
